@@ -9,14 +9,14 @@ from .common import run_control
 
 def analyse(ctx: CheckContext, p: Program):
     r = Resolver(p)
-    order.check_order(ctx, p, r)
+    ctx.guard(order.check_order, ctx, p, r)
     cone = r.pipeline_cone()
-    order.check_config_attrs(ctx, p, r, cone if ctx.tier == "quick" else cone)
-    order.check_handler_table(ctx, p, r)
-    order.check_division_guards(ctx, p, r, cone)
-    order.check_record_divisions(ctx, p, r, cone)
-    order.check_subzone_loops(ctx, p, r)
-    coldef.check_column_definitions(ctx, p, r)
+    ctx.guard(order.check_config_attrs, ctx, p, r, cone if ctx.tier == "quick" else cone)
+    ctx.guard(order.check_handler_table, ctx, p, r)
+    ctx.guard(order.check_division_guards, ctx, p, r, cone)
+    ctx.guard(order.check_record_divisions, ctx, p, r, cone)
+    ctx.guard(order.check_subzone_loops, ctx, p, r)
+    ctx.guard(coldef.check_column_definitions, ctx, p, r)
 
 
 def run(ctx: CheckContext):
